@@ -91,8 +91,9 @@ Proof.
 Qed.
 
 (* ------------------------------------------------------------------ primitives *)
-Definition align_compat (V : ver) (a : Z) : Prop :=
-  Z.min a (maxalign V) = match V with V1 => a | V2 => Z.min a 4 end.
+Lemma align_compat : forall (V : ver) (a : Z),
+  Z.min a (maxalign V) = match V with V1 => Z.min a 8 | V2 => Z.min a 4 end.
+Proof. destruct V; reflexivity. Qed.
 
 Lemma pow256_1 : pow256 1 = 256. Proof. reflexivity. Qed.
 Lemma pow256_2 : pow256 2 = 65536. Proof. reflexivity. Qed.
@@ -110,10 +111,10 @@ Definition prim_conv (E : endian) (k : sk) (bs : list Z) (p' : Z) : dres Z :=
          DOk (if sk_signed k then to_signed (sk_bytes k) u else u) p'
   end.
 
-Lemma prim_value : forall E k z p', in_range k z = true -> (k = KChar8 -> z < 128) ->
+Lemma prim_value : forall E k z p', in_range k z = true ->
   blen (prim_bytes E k z) = sk_size k /\ prim_conv E k (prim_bytes E k z) p' = DOk z p'.
 Proof.
-  intros E k z p' Hr Hc.
+  intros E k z p' Hr.
   destruct k; unfold in_range in Hr; boolZ;
     unfold prim_bytes, prim_conv, sk_size, sk_bytes, sk_signed;
     try (split; [apply int_enc_blen|]; cbv zeta; f_equal;
@@ -121,8 +122,7 @@ Proof.
                | apply int_dec_enc_signed;
                  rewrite ?pow256_1, ?pow256_2, ?pow256_4, ?pow256_8, ?pow256_16; lia ]).
   - (* KChar8 *)
-    specialize (Hc eq_refl). apply is_scalar_range in Hr.
-    unfold utf8_char. replace (z <? 128) with true by (symmetry; apply Z.ltb_lt; lia).
+    assert (Hm : z mod 256 = z) by (apply Z.mod_small; lia). rewrite Hm.
     split; [reflexivity|]. cbv zeta. destruct E; cbn [int_dec rev app le_dec]; f_equal; lia.
   - (* KBool *)
     split; [reflexivity|].
@@ -140,10 +140,10 @@ Lemma sk_size_pos : forall k, 0 < sk_size k.
 Proof. destruct k; unfold sk_size, sk_bytes; lia. Qed.
 
 Lemma rt_prim : forall V E k z,
-  in_range k z = true -> (k = KChar8 -> z < 128) -> align_compat V (sk_size k) ->
+  in_range k z = true ->
   rt_ok (ser_prim V E k z) (fun buf => des_prim V E buf k) z.
 Proof.
-  intros V E k z Hr Hc Hal pos Hpos.
+  intros V E k z Hr pos Hpos. pose proof (align_compat V (sk_size k)) as Hal.
   exists (enc_align V (sk_size k) pos ++ prim_bytes E k z). split; [reflexivity|].
   intros pre post Hpre. rewrite des_prim_unfold.
   assert (Hm : 0 < Z.min (sk_size k) (maxalign V)).
@@ -155,7 +155,7 @@ Proof.
   replace (pre ++ (zeros pad ++ prim_bytes E k z) ++ post)
     with (pre ++ zeros pad ++ (prim_bytes E k z ++ post)) by now rewrite <- !app_assoc.
   rewrite seek_mid by (rewrite blen_zeros; lia). cbn [dbind].
-  destruct (prim_value E k z (blen pre + pad + sk_size k) Hr Hc) as [Hlen Hconv].
+  destruct (prim_value E k z (blen pre + pad + sk_size k) Hr) as [Hlen Hconv].
   replace (pre ++ zeros pad ++ prim_bytes E k z ++ post)
     with ((pre ++ zeros pad) ++ prim_bytes E k z ++ post) by now rewrite <- !app_assoc.
   replace (blen pre + pad) with (blen (pre ++ zeros pad)) by (rewrite blen_app, blen_zeros; lia).
@@ -256,17 +256,11 @@ Proof.
 Qed.
 
 (* ------------------------------------------------------------------ u32 fields *)
-Lemma align4 : forall V, align_compat V 4.
-Proof. destruct V; reflexivity. Qed.
-Lemma align2 : forall V, align_compat V 2.
-Proof. destruct V; reflexivity. Qed.
-Lemma align1 : forall V, align_compat V 1.
-Proof. destruct V; reflexivity. Qed.
 
 Lemma rt_u32 : forall V E z, 0 <= z <= u32_max ->
   rt_ok (ser_prim V E KU32 z) (fun buf => des_prim V E buf KU32) z.
 Proof.
-  intros. apply rt_prim; [|discriminate|apply align4].
+  intros. apply rt_prim.
   unfold in_range, u32_max in *. apply andb_true_intro. split; [apply Z.leb_le|apply Z.ltb_lt]; lia.
 Qed.
 
@@ -327,11 +321,11 @@ Proof.
              (utf16_enc s) s).
     + rewrite <- (map_id_eq (utf16_enc s)) at 2.
       apply rt_list_z; [unfold blen; lia|].
-      intros u Hu. apply rt_prim; [|discriminate|apply align2].
+      intros u Hu. apply rt_prim.
       pose proof (utf16_units_range s H) as Hf. rewrite Forall_forall in Hf. specialize (Hf u Hu).
       unfold in_range. apply andb_true_intro. split; [apply Z.leb_le|apply Z.ltb_lt]; lia.
     + intros pos Hpos.
-      destruct (rt_prim V E KU16 0 eq_refl ltac:(discriminate) (align2 V) pos Hpos) as [bs [E1 D1]].
+      destruct (rt_prim V E KU16 0 eq_refl pos Hpos) as [bs [E1 D1]].
       exists bs. split; [exact E1|]. intros pre post Hpre.
       rewrite (D1 pre post Hpre). cbn [dbind]. change (negb (0 =? 0)) with false. cbv iota.
       rewrite utf16_dec_enc by assumption. reflexivity.
@@ -459,9 +453,7 @@ Proof.
   destruct r; [|discriminate].
   apply andb_prop in Hw as [Hw Hl]. apply andb_prop in Hw as [Hk Hr].
   apply sk_eqb_eq in Hk. subst k.
-  assert (Hal : align_compat V (sk_size (prim_sk h))) by (destruct h, V; try discriminate; reflexivity).
-  assert (Hnc : prim_sk h = KChar8 -> z < 128) by (destruct h; discriminate).
-  pose proof (rt_prim V E (prim_sk h) z Hr Hnc Hal) as Hp.
+  pose proof (rt_prim V E (prim_sk h) z Hr) as Hp.
   intros pos Hpos. destruct (Hp pos Hpos) as [bs [E1 D1]].
   exists bs. split.
   - destruct h; try discriminate; cbn [ser_enum get_k lookup Z.eqb sk_eqb bind prim_sk] in *; exact E1.
@@ -688,14 +680,14 @@ Proof.
                  (fun b buf p => if b =? 1
                     then des_value (fst mt, (snd mt, des_ty V2 E buf (snd mt))) acc p
                     else DOk acc p) 1).
-        -- apply rt_prim; [reflexivity|discriminate|apply align1].
+        -- apply rt_prim. reflexivity.
         -- change (1 =? 1) with true. cbv iota. now apply rt_value.
     + eapply rt_ext with (f := ser_prim V2 E KBool 0).
       * intros pos. rewrite find_cvS by assumption. rewrite Hopt.
         unfold ser_opt_fmember. rewrite Hv. reflexivity.
       * intros buf pos. unfold des_opt_fmember. reflexivity.
       * intros pos Hpos.
-        destruct (rt_prim V2 E KBool 0 eq_refl ltac:(discriminate) (align1 V2) pos Hpos) as [bs [E1 D1]].
+        destruct (rt_prim V2 E KBool 0 eq_refl pos Hpos) as [bs [E1 D1]].
         exists bs. split; [exact E1|]. intros pre post Hpre. now rewrite (D1 pre post Hpre).
   - destruct (lookup (m_id (fst mt)) d) as [v|] eqn:Hv; [|congruence].
     eapply rt_ext with (f := ser_value (cvS V E ms) d (m_id (fst mt))).
@@ -755,58 +747,26 @@ Qed.
 
 
 (* ------------------------------------------------------------------ collections *)
-Lemma nonascii_data : forall d, val_nonascii_char (VData d) = false ->
-  forall k v, lookup k d = Some v -> val_nonascii_char v = false.
-Proof.
-  induction d as [|[k' v'] r IH]; intros H k v Hl; [discriminate|].
-  cbn [val_nonascii_char] in H. apply orb_false_elim in H as [H1 H2].
-  cbn [lookup] in Hl. destruct (k =? k').
-  - inversion Hl. now subst.
-  - apply (IH H2 k v Hl).
-Qed.
-Lemma nonascii_seqdata : forall l, val_nonascii_char (VSeqData l) = false ->
-  forall d, In d l -> val_nonascii_char (VData d) = false.
-Proof.
-  induction l as [|d0 r IH]; intros H d Hin; [contradiction|].
-  cbn [val_nonascii_char] in H. apply orb_false_elim in H as [H1 H2].
-  destruct Hin as [<-|Hin]; [exact H1|]. apply (IH H2 d Hin).
-Qed.
-
-Lemma align_v2 : forall a, align_compat V2 a.
-Proof. intros. reflexivity. Qed.
-Lemma align_v1 : forall k, k <> KF128 -> align_compat V1 (sk_size k).
-Proof. intros k Hk. destruct k; try reflexivity. congruence. Qed.
-
 Lemma rt_prim_elems : forall V E k l,
-  forallb (in_range k) l = true -> val_nonascii_char (VSeqP k l) = false ->
-  align_compat V (sk_size k) ->
+  forallb (in_range k) l = true ->
   rt_ok (ser_list (ser_prim V E k) l) (fun buf => des_z (des_prim V E buf k) (blen l)) l.
 Proof.
-  intros V E k l Hr Hn Hal.
+  intros V E k l Hr.
   apply rt_list_id; [reflexivity|].
-  intros z Hz. rewrite forallb_forall in Hr. apply rt_prim; [now apply Hr| |exact Hal].
-  intros ->. cbn [val_nonascii_char] in Hn.
-  destruct (Z.leb_spec 128 z) as [Hge|]; [|lia].
-  exfalso. assert (existsb (fun z => 128 <=? z) l = true).
-  { apply existsb_exists. exists z. split; [assumption|now apply Z.leb_le]. }
-  congruence.
+  intros z Hz. rewrite forallb_forall in Hr. apply rt_prim. now apply Hr.
 Qed.
 
 Lemma rt_elements : forall V E e (w : val -> bool) fe fu (ge : list Z -> G) v,
-  elem_ok e = true -> is_union e = false -> (V = V1 -> is_f128 e = false) ->
-  elems_wt e w v = true -> val_nonascii_char v = false ->
-  (forall d, w (VData d) = true -> val_nonascii_char (VData d) = false ->
-             rt_ok (fe (VData d)) ge (VData d)) ->
+  elem_ok e = true -> is_union e = false ->
+  elems_wt e w v = true ->
+  (forall d, w (VData d) = true -> rt_ok (fe (VData d)) ge (VData d)) ->
   rt_ok (ser_elements V E e fe fu v) (fun buf => des_elements V E buf e (ge buf) (seq_length v)) v.
 Proof.
-  intros V E e w fe fu ge v Hok Hnu Hf Hw Hn Hfe.
+  intros V E e w fe fu ge v Hok Hnu Hw Hfe.
   destruct e as [p| | |h ls|e'|n e'|x ms|x dd cs]; try discriminate; cbn [elems_wt] in Hw.
   - (* primitive elements *)
     destruct v as [| | |k l| |]; try discriminate.
     apply andb_prop in Hw as [Hk Hr]. apply sk_eqb_eq in Hk. subst k.
-    assert (Hal : align_compat V (sk_size (prim_sk p))).
-    { destruct V; [|apply align_v2]. apply align_v1. specialize (Hf eq_refl).
-      destruct p; try discriminate; cbn; congruence. }
     cbn [seq_length].
     assert (Hgen : rt_ok (ser_list (ser_prim V E (prim_sk p)) l)
               (fun buf pos => dbind (des_z (des_prim V E buf (prim_sk p)) (blen l) pos)
@@ -830,14 +790,14 @@ Proof.
     apply (rt_map _ _ l VSeqData).
     apply rt_list_id; [reflexivity|].
     intros d Hd. rewrite forallb_forall in Hw.
-    pose proof (Hfe d (Hw d Hd) (nonascii_seqdata l Hn d Hd)) as Hrt.
+    pose proof (Hfe d (Hw d Hd)) as Hrt.
     intros pos Hpos. destruct (Hrt pos Hpos) as [bs [E1 D1]].
     exists bs. split; [exact E1|]. intros pre post Hpre. unfold undata. now rewrite (D1 pre post Hpre).
   - destruct v as [| | | | |l]; try discriminate. cbn [ser_elements des_elements seq_length].
     apply (rt_map _ _ l VSeqData).
     apply rt_list_id; [reflexivity|].
     intros d Hd. rewrite forallb_forall in Hw.
-    pose proof (Hfe d (Hw d Hd) (nonascii_seqdata l Hn d Hd)) as Hrt.
+    pose proof (Hfe d (Hw d Hd)) as Hrt.
     intros pos Hpos. destruct (Hrt pos Hpos) as [bs [E1 D1]].
     exists bs. split; [exact E1|]. intros pre post Hpre. unfold undata. now rewrite (D1 pre post Hpre).
 Qed.
@@ -938,20 +898,15 @@ Lemma ser_ty_arr : forall V E n e, exists fu, ser_ty V E (TArr n e) = ser_array 
 Proof. intros. eexists. reflexivity. Qed.
 
 Theorem rt_ty : forall V E t, tgood V t = true ->
-  forall v, wt t v = true -> val_nonascii_char v = false ->
+  forall v, wt t v = true ->
   rt_ok (ser_ty V E t v) (fun buf => des_ty V E buf t) v.
 Proof.
-  intros V E t. induction t using ty_ind'; intros Hg v Hw Hn.
+  intros V E t. induction t using ty_ind'; intros Hg v Hw.
   - (* primitive *)
     cbn [wt] in Hw. destruct v as [k z| | | | |]; try discriminate.
     apply andb_prop in Hw as [Hk Hr]. pose proof (sk_eqb_eq _ _ Hk) as ->.
     cbn [ser_ty des_ty]. rewrite sk_eqb_refl.
-    apply (rt_map _ _ z (VP (prim_sk p))). apply rt_prim; [exact Hr| |].
-    + intros He. rewrite He in Hn. cbn [val_nonascii_char] in Hn. apply Z.leb_gt in Hn. lia.
-    + destruct V; [|apply align_v2]. apply align_v1.
-      unfold tgood in Hg. apply andb_prop in Hg as [_ Hg]. apply negb_true_iff in Hg.
-      apply ty_any_self in Hg. unfold tbad in Hg. cbn [is_union is_mutable orb] in Hg.
-      apply orb_false_elim in Hg as [Hf _]. destruct p; try discriminate; cbn; congruence.
+    apply (rt_map _ _ z (VP (prim_sk p))). now apply rt_prim.
   - cbn [wt] in Hw. destruct v as [|s| | | |]; try discriminate. cbn [ser_ty des_ty].
     apply (rt_map _ _ s VStr). now apply rt_string.
   - cbn [wt] in Hw. destruct v as [|s| | | |]; try discriminate. cbn [ser_ty des_ty].
@@ -973,8 +928,7 @@ Proof.
     pose proof (ty_any_self _ _ Hae) as Hb. unfold tbad in Hb.
     apply orb_false_elim in Hb as [Hb Hb3]. apply orb_false_elim in Hb as [Hb1 Hb2].
     apply (rt_elements V E t (wt t)); try assumption.
-    + intros ->. now apply orb_false_elim in Hb3 as [? _].
-    + intros d Hwd Hnd. now apply IHt.
+    + intros d Hwd. now apply IHt.
   - (* array *)
     unfold tgood in Hg. apply andb_prop in Hg as [Hwf Ha]. apply negb_true_iff in Ha.
     cbn [wf_ty] in Hwf. apply andb_prop in Hwf as [Hwf _]. apply andb_prop in Hwf as [Hwf _].
@@ -987,8 +941,7 @@ Proof.
     pose proof (ty_any_self _ _ Hae) as Hb. unfold tbad in Hb.
     apply orb_false_elim in Hb as [Hb Hb3]. apply orb_false_elim in Hb as [Hb1 Hb2].
     apply (rt_elements V E t (wt t)); try assumption.
-    + intros ->. now apply orb_false_elim in Hb3 as [? _].
-    + intros d Hwd Hnd. now apply IHt.
+    + intros d Hwd. now apply IHt.
   - (* structure *)
     destruct (tgood_struct V x ms Hg) as [Hnd [Hb Hgm]].
     destruct v as [| |d| | |]; try (cbn [wt] in Hw; discriminate).
@@ -998,7 +951,7 @@ Proof.
     assert (Hx : x <> Mutable) by (intros ->; discriminate).
     assert (HH : mem_hyp V E ms d).
     { split; [exact Hnd|]. split.
-      - intros ->. apply orb_false_elim in Hb3 as [_ Ho]. cbn [has_opt_member] in Ho.
+      - intros ->. pose proof Hb3 as Ho. cbn [has_opt_member] in Ho.
         apply Forall_forall. intros mt Hin.
         destruct (m_opt (fst mt)) eqn:Hm; [|reflexivity].
         assert (existsb (fun mx : minfo * ty => m_opt (fst mx)) ms = true)
@@ -1007,7 +960,7 @@ Proof.
       - rewrite Forall_forall in *. intros mt Hin.
         specialize (H mt Hin). specialize (Hgm mt Hin). specialize (Hgo mt Hin).
         destruct (lookup (m_id (fst mt)) d) as [v'|] eqn:Hl; [|exact Hgo].
-        apply H; [exact Hgm|exact Hgo|]. exact (nonascii_data d Hn _ _ Hl). }
+        apply H; [exact Hgm|exact Hgo]. }
     rewrite ser_ty_struct. cbn [on_data].
     eapply rt_ext with (df := fun buf pos =>
       dbind (des_struct_nested V E buf x (cvD V E buf ms) pos) (fun d' p => DOk (VData d') p)).
@@ -1058,11 +1011,11 @@ Proof.
 Qed.
 
 Theorem roundtrip_tgood : forall V E t v,
-  is_aggr t = true -> tgood V t = true -> wt t v = true -> val_nonascii_char v = false ->
+  is_aggr t = true -> tgood V t = true -> wt t v = true ->
   exists bs, encode V E t v = Ok bs /\ decode t bs = Ok v.
 Proof.
-  intros V E t v Ha Hg Hw Hn.
-  destruct (rt_ty V E t Hg v Hw Hn 0 ltac:(lia)) as [body [E1 D1]].
+  intros V E t v Ha Hg Hw.
+  destruct (rt_ty V E t Hg v Hw 0 ltac:(lia)) as [body [E1 D1]].
   unfold encode. rewrite Ha, E1. cbn [bind].
   set (n := pad_count (blen ([0; repr_id V E (ty_ext t); 0; 0] ++ body))).
   eexists. split; [reflexivity|].
@@ -1136,20 +1089,17 @@ Proof.
 Qed.
 
 Lemma known0_tgood : forall V t v,
-  wf_ty t = true -> known_class V t v = 0%N ->
-  tgood V t = true /\ val_nonascii_char v = false.
+  wf_ty t = true -> known_class V t v = 0%N -> tgood V t = true.
 Proof.
   intros V t v Hwf Hk. unfold known_class in Hk.
-  destruct (val_nonascii_char v); [discriminate|]. split; [|reflexivity].
   unfold tgood. rewrite Hwf. cbn [andb]. apply negb_true_iff.
   destruct V; cbn [andb] in Hk.
-  - destruct (ty_any is_f128 t) eqn:H1; [discriminate|].
-    destruct (ty_any has_opt_member t) eqn:H2; [discriminate|].
+  - destruct (ty_any has_opt_member t) eqn:H2; [discriminate|].
     destruct (stage2 t) eqn:H3; [|discriminate]. unfold stage2 in H3. apply negb_true_iff in H3.
     rewrite (ty_any_ext (tbad V1)
-               (fun t => (fun t => is_union t || is_mutable t) t || (fun t => is_f128 t || has_opt_member t) t))
+               (fun t => (fun t => is_union t || is_mutable t) t || has_opt_member t))
       by reflexivity.
-    rewrite ty_any_or, H3. cbn [orb]. rewrite ty_any_or, H1, H2. reflexivity.
+    now rewrite ty_any_or, H3, H2.
   - destruct (stage2 t) eqn:H3; [|discriminate]. unfold stage2 in H3. apply negb_true_iff in H3.
     rewrite (ty_any_ext (tbad V2)
                (fun t => (fun t => is_union t || is_mutable t) t || (fun _ => false) t))
@@ -1172,7 +1122,7 @@ Theorem roundtrip_outside_known : forall V E t v,
   is_aggr t = true -> wf_ty t = true -> wt t v = true -> known_class V t v = 0%N ->
   exists bs, encode V E t v = Ok bs /\ decode t bs = Ok v.
 Proof.
-  intros V E t v Ha Hwf Hw Hk. destruct (known0_tgood V t v Hwf Hk) as [Hg Hn].
+  intros V E t v Ha Hwf Hw Hk. pose proof (known0_tgood V t v Hwf Hk) as Hg.
   now apply roundtrip_tgood.
 Qed.
 
@@ -1182,26 +1132,21 @@ Theorem roundtrip_S2 : forall V E t v,
   exists bs, encode V E t v = Ok bs /\ decode t bs = Ok v.
 Proof. intros. now apply roundtrip_outside_known. Qed.
 
-Theorem roundtrip_S1 : forall V E t v,
-  is_aggr t = true -> wf_ty t = true -> stage1 t = true -> wt t v = true ->
-  known_class V t v = 0%N ->
-  exists bs, encode V E t v = Ok bs /\ decode t bs = Ok v.
-Proof. intros. now apply roundtrip_outside_known. Qed.
-
-(* in stage 1 the optional-member class is empty: only char8 >= 0x80 and float128/XCDR1 remain *)
-Lemma stage1_known : forall V t v, stage1 t = true ->
-  known_class V t v = 0%N \/ known_class V t v = 1%N \/ known_class V t v = 2%N.
+(* in stage 1 no recorded class can occur *)
+Lemma stage1_known : forall V t v, stage1 t = true -> known_class V t v = 0%N.
 Proof.
   intros V t v H1. pose proof (stage1_stage2 t H1) as H2.
   unfold known_class. rewrite H2. cbn [negb].
-  destruct (val_nonascii_char v); [tauto|].
-  destruct V; cbn [andb]; [|tauto].
-  destruct (ty_any is_f128 t); [tauto|].
   assert (Ho : ty_any has_opt_member t = false).
   { unfold stage1 in H1. apply negb_true_iff in H1. revert H1. apply ty_any_mono.
     intros t0 Hq. rewrite Hq. now rewrite orb_true_r. }
-  rewrite Ho. tauto.
+  rewrite Ho. now destruct V.
 Qed.
+
+Theorem roundtrip_S1 : forall V E t v,
+  is_aggr t = true -> wf_ty t = true -> stage1 t = true -> wt t v = true ->
+  exists bs, encode V E t v = Ok bs /\ decode t bs = Ok v.
+Proof. intros. apply roundtrip_outside_known; try assumption. now apply stage1_known. Qed.
 
 (* ------------------------------------------------------------------ witnesses *)
 Definition mk (id : Z) : minfo := mkM id false false false false [].
@@ -1214,18 +1159,6 @@ Definition refutes (V : ver) (E : endian) (t : ty) (v : val) (k : N) : Prop :=
 Ltac wit :=
   unfold refutes; do 4 (split; [vm_compute; reflexivity|]);
   eexists; split; [vm_compute; reflexivity|vm_compute; discriminate].
-
-(* class 1: {char8 'e-acute'; uint8 9} *)
-Lemma witness_char8 :
-  refutes V1 LE (TStruct Final [(mk 0, TPrim PChar8); (mk 1, TPrim PU8)])
-          (VData [(0, VP KChar8 233); (1, VP KU8 9)]) 1.
-Proof. wit. Qed.
-
-(* class 2: {uint64 7; float128 9} in XCDR1 *)
-Lemma witness_float128 :
-  refutes V1 LE (TStruct Final [(mk 0, TPrim PU64); (mk 1, TPrim PF128)])
-          (VData [(0, VP KU64 7); (1, VP KF128 9)]) 2.
-Proof. wit. Qed.
 
 (* class 3: {@optional long 5; long 77} in XCDR1 *)
 Lemma witness_optional_xcdr1 :
@@ -1264,6 +1197,18 @@ Lemma witness_union_sequence :
     (TStruct Final [(mk 0, TSeq (TUnion Appendable (TPrim PI32) [(mkM 1 false false false false [10], TPrim PU8)]))])
     (VData [(0, VSeqData [[(0, VP KI32 10); (1, VP KU8 3)]])]) 4.
 Proof. wit. Qed.
+
+(* the inputs of the two repaired defects (former classes 1 and 2) now round-trip *)
+Lemma regression_char8_float128 :
+  (let t := TStruct Final [(mk 0, TPrim PChar8); (mk 1, TPrim PU8)] in
+   let v := VData [(0, VP KChar8 233); (1, VP KU8 9)] in
+   exists bs, encode V1 LE t v = Ok bs /\ decode t bs = Ok v) /\
+  (let t := TStruct Final [(mk 0, TPrim PU64); (mk 1, TPrim PF128)] in
+   let v := VData [(0, VP KU64 7); (1, VP KF128 9)] in
+   exists bs, encode V1 LE t v = Ok bs /\ decode t bs = Ok v).
+Proof.
+  split; cbv zeta; eexists; (split; [vm_compute; reflexivity|vm_compute; reflexivity]).
+Qed.
 
 (* non-vacuity of the round-trip theorems: a nested S2 value in no class *)
 Definition ex_ty : ty :=
@@ -1392,11 +1337,11 @@ Qed.
 (* the padding count of a round-tripping S1/S2 sample is exactly the number of bytes behind
    the position where the reader stops *)
 Theorem padding_is_reader_rest : forall V E t v,
-  is_aggr t = true -> tgood V t = true -> wt t v = true -> val_nonascii_char v = false ->
+  is_aggr t = true -> tgood V t = true -> wt t v = true ->
   exists bs p, encode V E t v = Ok bs /\ decode_end t bs = Some p /\ nth 3 bs 0 = blen bs - 4 - p.
 Proof.
-  intros V E t v Ha Hg Hw Hn.
-  destruct (rt_ty V E t Hg v Hw Hn 0 ltac:(lia)) as [body [E1 D1]].
+  intros V E t v Ha Hg Hw.
+  destruct (rt_ty V E t Hg v Hw 0 ltac:(lia)) as [body [E1 D1]].
   unfold encode. rewrite Ha, E1. cbn [bind].
   set (n := pad_count (blen ([0; repr_id V E (ty_ext t); 0; 0] ++ body))).
   eexists. exists (blen body). split; [reflexivity|].
